@@ -6,7 +6,7 @@ from .common import info
 
 
 def run(ctx):
-    RH.analyse_builder(ctx, "R02.a", "R02.c", "R09.a")
+    RH.analyse_builder(ctx, None, None, "R09.a")
     RH.span_arithmetic(ctx, "R09.b")
     RR.hit_filter(ctx, "R09.c")
     RH.new_pair_guards(ctx, "R09.e")
